@@ -92,6 +92,10 @@ func containsByte(s string, b byte) bool {
 //	6: dense {0,1,I,J,N}     sparse {_,e,1,I,J,N}
 //	7: dense {0,t,1}         sparse {_,e,t,1}
 //
+// Derivative-only alphabet (variable mode only; letters in model.go):
+//
+//	8: dense {0,x,z,h,o,y}   sparse {_,e,x,z,h,o,y}
+//
 // SparseConst operands (storage c) use the sparse alphabets and never hold variables.
 func alphabet(stor byte, level int, varM bool, p int) string {
 	x := "1"
@@ -103,6 +107,12 @@ func alphabet(stor byte, level int, varM bool, p int) string {
 	}
 	var a string
 	switch {
+	case level == 8 && !varM:
+		panic("harness: alphabet level 8 without variables")
+	case level == 8 && stor == 'd':
+		return "0" + x + "zhoy"
+	case level == 8:
+		return "_e" + x + "zhoy"
 	case level >= 4:
 		a = map[int]string{4: "tq1", 5: "tunq1", 6: "1IJN", 7: "t1"}[level]
 		if stor == 'd' {
@@ -135,6 +145,9 @@ func patterns(s slot, stor byte, level int, varM bool) []string {
 	case 's':
 		if level <= 1 {
 			return []string{"0", "1"}
+		}
+		if varM && stor != 'c' && level == 8 {
+			return []string{"0", "1", "m", "z", "h", "o", "y"}
 		}
 		if varM && stor != 'c' {
 			return []string{"0", "1", "m", "z"}
@@ -357,7 +370,7 @@ func (fb *famBuilder) vectorFamilies(n int, lv [3]int, types []*tinfo, varM bool
 		fb.add(op, []int{n}, lv, types, varM)
 	}
 	for _, op := range vecScal {
-		fb.add(op, []int{n}, [3]int{lv[0], lv[1], 3}, types, varM)
+		fb.add(op, []int{n}, [3]int{lv[0], lv[1], scalarLevel(lv[2])}, types, varM)
 	}
 	fb.add("VdotV", []int{n}, [3]int{1, lv[1], lv[2]}, types, varM)
 	fb.add("Vset", []int{n}, lv, types, varM)
@@ -369,6 +382,15 @@ func (fb *famBuilder) vectorFamilies(n int, lv [3]int, types []*tinfo, varM bool
 		fb.add("VnewSparse", []int{n}, [3]int{3, 3, 3}, types, false)
 		fb.add("VnewDense", []int{n}, [3]int{3, 3, 3}, types, false)
 	}
+}
+
+// scalarLevel: the scalar operand of V*S / M*S has the full alphabet {0,1,-2,(z)}, with the
+// derivative-only letters where the second operand of the binary operations has them.
+func scalarLevel(lvB int) int {
+	if lvB == 8 {
+		return 8
+	}
+	return 3
 }
 
 // matVecFamilies: MdotV / VdotM / Outer with an n×m matrix.
@@ -385,7 +407,7 @@ func (fb *famBuilder) matrixFamilies(r, c int, lv [3]int, ra [2]int, types []*ti
 		fb.add(op, []int{r, c}, lv, types, varM)
 	}
 	for _, op := range matScal {
-		fb.add(op, []int{r, c}, [3]int{ra[0], ra[1], 3}, types, varM)
+		fb.add(op, []int{r, c}, [3]int{ra[0], ra[1], scalarLevel(lv[2])}, types, varM)
 	}
 	one := max(ra[0], ra[1])
 	fb.add("Mset", []int{r, c}, [3]int{ra[0], ra[1], 0}, types, varM)
@@ -550,6 +572,135 @@ func (fb *famBuilder) mjoint(r, c, lvR, lvA int, types []*tinfo) {
 	fb.add("MjointWalk", []int{r, c}, [3]int{lvR, lvA, 0}, types, false)
 }
 
+// ---- derivative-only elements ----------------------------------------------------------
+
+// derivOnly: every operation over the derivative-only alphabet (level 8: value 0 with a
+// gradient only / a diagonal Hessian only / an off-diagonal Hessian only / nothing but
+// memory of order 2, next to 0|no entry, explicit zero and a non-zero variable), Real32 and
+// Real64, every storage combination. The number of variables of a configuration is the
+// number its letters introduce (1, 2 and more all occur). Smallest shapes: the alphabet in
+// every slot at once; next shapes: in one slot at a time (first operand, second operand,
+// receiver prior content) with levels 2/1 in the others. recvOnly (receiver lives): only the
+// receiver's prior content.
+func (fb *famBuilder) derivOnly(thorough, recvOnly bool) {
+	ty := realTypes
+	add := func(op string, d []int, lv [][3]int) {
+		for _, l := range lv {
+			fb.add(op, d, l, ty, true)
+		}
+	}
+	// level triples for receiver, a, b; size = elements of the largest container
+	trip := func(all bool) [][3]int {
+		switch {
+		case recvOnly:
+			return [][3]int{{8, 1, 1}}
+		case all:
+			return [][3]int{{8, 8, 8}}
+		}
+		return [][3]int{{1, 8, 2}, {1, 2, 8}, {8, 1, 1}}
+	}
+	pair := func(all bool) [][3]int { // receiver and one operand
+		switch {
+		case recvOnly:
+			return [][3]int{{8, 1, 0}}
+		case all:
+			return [][3]int{{8, 8, 0}}
+		}
+		return [][3]int{{1, 8, 0}, {8, 1, 0}}
+	}
+	prod := func() [][3]int { // products: both operands at once, the receiver separately
+		if recvOnly {
+			return [][3]int{{8, 1, 1}}
+		}
+		return [][3]int{{1, 8, 8}, {8, 1, 1}}
+	}
+	big := [][3]int{{0, 8, 1}, {0, 1, 8}, {8, 0, 0}} // 2x2 matrices (thorough)
+	if recvOnly {
+		big = [][3]int{{8, 0, 0}}
+	}
+	for n := 1; n <= 2; n++ {
+		if recvOnly && n == 2 && !thorough {
+			continue
+		}
+		d := []int{n}
+		all := n == 1 || (thorough && !recvOnly)
+		for _, op := range vecBin {
+			add(op, d, trip(all))
+		}
+		for _, op := range vecScal {
+			add(op, d, trip(all))
+		}
+		add("Vset", d, pair(all))
+		add("Vequals", d, pair(all))
+		add("Vreset", d, [][3]int{{8, 0, 0}})
+		if !recvOnly {
+			add("VdotV", d, [][3]int{{1, 8, 8}})
+			add("VasDense", d, [][3]int{{0, 8, 0}})
+			add("VasSparse", d, [][3]int{{0, 8, 0}})
+		}
+	}
+	for n := 1; n <= 2; n++ {
+		for m := 1; m <= 2; m++ {
+			if n*m > 2 && !thorough {
+				continue
+			}
+			if recvOnly && n*m > 1 && !thorough {
+				continue
+			}
+			d := []int{n, m}
+			for _, op := range []string{"MdotV", "VdotM", "Outer"} {
+				add(op, d, prod())
+			}
+		}
+	}
+	for r := 1; r <= 2; r++ {
+		for c := 1; c <= 2; c++ {
+			if r*c > 2 && !thorough {
+				continue
+			}
+			if recvOnly && r*c > 1 && !thorough {
+				continue
+			}
+			d := []int{r, c}
+			all := r*c == 1
+			tr, pa := trip(all), pair(all)
+			if r*c > 2 {
+				tr = big
+				pa = [][3]int{{0, 8, 0}, {8, 0, 0}}
+				if recvOnly {
+					pa = pa[1:]
+				}
+			}
+			for _, op := range matBin {
+				add(op, d, tr)
+			}
+			for _, op := range matScal {
+				add(op, d, tr)
+			}
+			add("Mset", d, pa)
+			add("Mequals", d, pa)
+			add("Mreset", d, [][3]int{{8, 0, 0}})
+			add("MsetIdentity", d, [][3]int{{8, 0, 0}})
+			if !recvOnly {
+				add("MasDense", d, [][3]int{{0, 8, 0}})
+				add("MasSparse", d, [][3]int{{0, 8, 0}})
+			}
+		}
+	}
+	for n := 1; n <= 2; n++ {
+		for k := 1; k <= 2; k++ {
+			for m := 1; m <= 2; m++ {
+				if n*k*m <= 2 || (thorough && n*k*m <= 4) {
+					if recvOnly && n*k*m > 1 && !thorough {
+						continue
+					}
+					add("MdotM", []int{n, k, m}, prod())
+				}
+			}
+		}
+	}
+}
+
 func subtract(all []*tinfo, minus []*tinfo) []*tinfo {
 	r := []*tinfo{}
 	for _, t := range all {
@@ -676,6 +827,15 @@ func families(tier string) []*family {
 		}
 		fb.mdotm(3, 3, 3, L(0, 1, 1), f64Only, false)
 	}
+	// ---- derivative-only elements: interface methods, concrete methods, receiver lives ----
+	fb.derivOnly(thorough, false)
+	fb.conc = true
+	fb.derivOnly(thorough, false)
+	fb.conc = false
+	fb.lifeLen = 1
+	fb.derivOnly(thorough, true)
+	fb.lifeLen = 0
+
 	// ---- SparseConst*Vector operands ----
 	floatReal := typeSet("Float64", "Real64", "Float32", "Real32")
 	for n := 0; n <= 2; n++ {
